@@ -18,20 +18,20 @@ import (
 
 // AuthOpts configures a real sso-auth.
 type AuthOpts struct {
-	Provider      string   // google | okta
-	Slug          string   // provider slug (default "idp")
-	Host          string   // server.host (default "sso-auth.root.test")
-	Scheme        string   // server.scheme forced onto code redirects (default "http")
-	RootDomains   []string // authorize.proxy.domains
-	EmailDomains  []string
-	EmailAddrs    []string
-	LifeK         int // session lifetime in units (default 8)
-	Secure        bool
-	CookieSecret  []byte
-	CodeSecret    []byte
-	ProxyID       string
-	ProxySecret   string
-	CookieDomain  string
+	Provider     string   // google | okta
+	Slug         string   // provider slug (default "idp")
+	Host         string   // server.host (default "sso-auth.root.test")
+	Scheme       string   // server.scheme forced onto code redirects (default "http")
+	RootDomains  []string // authorize.proxy.domains
+	EmailDomains []string
+	EmailAddrs   []string
+	LifeK        int // session lifetime in units (default 8)
+	Secure       bool
+	CookieSecret []byte
+	CodeSecret   []byte
+	ProxyID      string
+	ProxySecret  string
+	CookieDomain string
 }
 
 // Auth is a running in-process sso-auth whose provider talks to a FakeIdP.
